@@ -718,10 +718,11 @@ class Engine:
         s.pop()
         s.set('timeout', self.branch_timeout_ms)
         self.results.append(ObligationResult(name, status, sig, dt, model=model, reason=reason, smt2=smt2, backend=backend))
-        try:
+        # Only a PROVED goal may be used afterwards.  Assuming a refuted goal would silently restrict - possibly empty - the
+        # rest of the path, and every later obligation on it would be discharged vacuously (this is how an open known
+        # finding once hid a surviving mutant: DESIGN 8.6).
+        if status == 'proved':
             p.add(goal)
-        except PathEnd:
-            raise
         return status == 'proved'
 
     def cover(self, name):
